@@ -80,7 +80,7 @@ def _candidates(bad):
 
 def _coverage(ctx, rows):
     n = {"ok_with_imports": 0, "loop": 0, "unknown": 0, "conflict": 0, "valid": 0, "invalid": 0, "inherit": 0,
-         "cu_rejected": 0, "other": 0}
+         "cu_rejected": 0, "other": 0, "tied_inherited": 0}
     for r in rows:
         for s, o in r["res"].items():
             imps = r["db"][s]["imports"]
@@ -89,6 +89,10 @@ def _coverage(ctx, rows):
                 own = sum(len(c["apis"]) for c in r["db"][s]["cols"])
                 if sum(len(c["apis"]) for c in o["cols"]) > own:
                     n["inherit"] += 1
+                # >= 2 inherited (not own) collections whose keys differ only in the internal path
+                mine = {c["cd"] for c in r["db"][s]["cols"]}
+                if len([c for c in o["cols"] if c["cd"].startswith("c1") and c["cd"] not in mine]) >= 2:
+                    n["tied_inherited"] += 1
             if o["err"] in ("loop", "unknown", "conflict"):
                 n[o["err"]] += 1
             elif o["err"]:
@@ -98,7 +102,7 @@ def _coverage(ctx, rows):
                 if not o["valid"] and any(a["cu"] < 1 or a["cu"] > 50 for c in o["cols"] for a in c["apis"]):
                     n["cu_rejected"] += 1
     ctx.cov["real_outcomes"] = n
-    for k in ("ok_with_imports", "loop", "unknown", "conflict", "valid", "invalid", "inherit", "cu_rejected"):
+    for k in ("ok_with_imports", "loop", "unknown", "conflict", "valid", "invalid", "inherit", "cu_rejected", "tied_inherited"):
         if n[k] == 0:
             raise vlib.Infra("vacuous binding: no real outcome of kind %s" % k)
     if n["other"]:
@@ -156,6 +160,8 @@ def run(ctx):
     ctx.assumptions += ["bounded: 4 specs + 1 unknown index, collections {c1,c2}, apis {a,b}; only the API list of a collection is varied "
                         "(headers/parsers/extensions/verifications use the same generic merge code)",
                         "InheritanceApis (inheritance inside one spec) not exercised",
+                        "determinism = byte-identical marshalled expansion (ordered) over 6 runs / two stores, 64 runs when the store holds "
+                        "collections whose keys differ only in the internal path (tied keys would surface in Go map order)",
                         "keeper store = in-memory IAVL; staking keeper stubbed (BondDenom only); MaxCU param = 50"]
     rows, bad = _judge(ctx, vectors, "all")
     _coverage(ctx, rows)
